@@ -66,34 +66,43 @@ Fixpoint n_powers (n : nat) (nm : list T) (k : nat) (last : list T) : list (list
   | Datatypes.S k' => let nxt := mmul n last nm in nxt :: n_powers n nm k' nxt
   end.
 
+(* the pieces of decompose_for_tropical after the Cholesky loop *)
+Definition det_q_of (n : nat) (q : list T) : T :=
+  fold_left (fun acc i => s_mul S acc (mget n q i i)) (seq 0 n) (s_one S).
+Definition inv_diag_of (n : nat) (q : list T) : list T := map (fun i => s_inv S (mget n q i i)) (seq 0 n).
+(* Q = D (1 + N): N[row][col] = inv_diag[row] * q[row][col] below the diagonal *)
+Definition n_matrix_of (n : nat) (q idg : list T) : list T :=
+  tabulate n (fun r c => if Nat.ltb c r then s_mul S (nth r idg (s_zero S)) (mget n q r c) else s_zero S).
+(* -N + N^2 - N^3 ... : fold over (index, power), minus for even index *)
+Definition n_sum_of (n : nat) (nm : list T) : list T :=
+  let powers := nm :: n_powers n nm (n - 2) nm in
+  fold_left (fun acc im => if Nat.even (fst im) then msub n acc (snd im) else madd n acc (snd im))
+            (combine (seq 0 (length powers)) powers) (mzeros n).
+(* (1 + n_sum) D^-1 : add one on the diagonal, then scale column c by inv_diag[c] *)
+Definition inverse_q_of (n : nat) (n_sum idg : list T) : list T :=
+  tabulate n (fun r c =>
+    s_mul S (if Nat.eqb r c then s_add S (mget n n_sum r c) (s_one S) else mget n n_sum r c) (nth c idg (s_zero S))).
+Definition stability_error (n : nat) (inverse m : list T) : T :=
+  l21_norm n (msub n (mmul n inverse m) (midentity n)).
+
 Definition decompose_for_tropical (n : nat) (m : list T) (stability : option C)
   : res (matrix_error + decomposition) :=
   if Nat.eqb n 0 then Panic 40 (* self.data[0] on an empty matrix *) else
   let q := cholesky n m in
-  let det_q := fold_left (fun acc i => s_mul S acc (mget n q i i)) (seq 0 n) (s_one S) in
-  let inv_diag := map (fun i => s_inv S (mget n q i i)) (seq 0 n) in
+  let det_q := det_q_of n q in
+  let idg := inv_diag_of n q in
   let determinant := s_mul S det_q det_q in
   (* det_q == 0 || determinant == 0  (the square can underflow; fix: commit in /repo) *)
   if s_eqb S det_q (s_zero S) || s_eqb S determinant (s_zero S) then Ok (inl ZeroDet) else
-  let idg i := nth i inv_diag (s_zero S) in
-  let nm := tabulate n (fun r c => if Nat.ltb c r then s_mul S (idg r) (mget n q r c) else s_zero S) in
-  let powers := nm :: n_powers n nm (n - 2) nm in
-  let n_sum := fold_left (fun acc im =>
-                  if Nat.even (fst im) then msub n acc (snd im) else madd n acc (snd im))
-                (combine (seq 0 (length powers)) powers) (mzeros n) in
-  let inverse_q := tabulate n (fun r c =>
-      s_mul S (if Nat.eqb r c then s_add S (mget n n_sum r c) (s_one S) else mget n n_sum r c) (idg c)) in
+  let inverse_q := inverse_q_of n (n_sum_of n (n_matrix_of n q idg)) idg in
   let q_t_inv := mtranspose n inverse_q in
-  let q_t := mtranspose n q in
   let inverse := mmul n q_t_inv inverse_q in
-  let result := mkDecomp determinant inverse q_t q_t_inv in
+  let result := mkDecomp determinant inverse (mtranspose n q) q_t_inv in
   match stability with
   | None => Ok (inr result)
   | Some tol =>
-      let approx := mmul n inverse m in
-      let err := l21_norm n (msub n approx (midentity n)) in
       (* !(error <= tolerance): a NaN error is rejected (fix: commit in /repo) *)
-      if negb (s_leb S err (s_of_c S tol)) then Ok (inl Unstable) else Ok (inr result)
+      if negb (s_leb S (stability_error n inverse m) (s_of_c S tol)) then Ok (inl Unstable) else Ok (inr result)
   end.
 
 End Matrix.
